@@ -484,6 +484,263 @@ Section WithHooks.
   Qed.
 End WithHooks.
 
+(* ------------------------------------------------------------------ the repaired Entity.flush (obj_flush_h) *)
+Lemma apply_action_created : forall s a o,
+  o_status (objs (apply_action s a) o) = SCreated -> o_status (objs s o) = SCreated \/ next s <= o.
+Proof.
+  intros s a o H. destruct a as [b|ps]; cbn in H.
+  - destruct (clean (o_status (objs s b))) eqn:Hc.
+    + cbn in H. destruct (Nat.eq_dec o b) as [->|Hne]; [rewrite upd_same in H; discriminate | rewrite upd_other in H; auto].
+    + destruct (o_status (objs s b)) eqn:Hs; auto; cbn in H;
+        (destruct (Nat.eq_dec o b) as [->|Hne]; [rewrite upd_same in H; cbn in H; left; congruence | rewrite upd_other in H; auto]).
+  - cbn in H. destruct (Nat.eq_dec o (next s)) as [->|Hne]; [right; lia | rewrite upd_other in H; auto].
+Qed.
+
+Lemma apply_action_next : forall s a, next s <= next (apply_action s a).
+Proof.
+  intros s a. destruct a as [b|ps]; cbn; [|lia].
+  destruct (clean (o_status (objs s b))); cbn; [lia|]. destruct (o_status (objs s b)); cbn; lia.
+Qed.
+
+Lemma actions_created : forall l s o,
+  o_status (objs (fold_left apply_action l s) o) = SCreated -> o_status (objs s o) = SCreated \/ next s <= o.
+Proof.
+  induction l as [|a l IH]; intros s o H; cbn in H; auto.
+  destruct (IH _ _ H) as [H1|H1]; [apply apply_action_created in H1; auto | right; pose proof (apply_action_next s a); lia].
+Qed.
+
+Lemma write_wf : forall s o k, wf s -> pend s o = Some k -> wf (write o k s).
+Proof.
+  intros s o k [Hnd Hots Hnext Hmod Hcl] Hp.
+  assert (Hpo : pend (write o k s) o = None) by (unfold pend, write; cbn; rewrite upd_same; cbn; destruct k; reflexivity).
+  assert (Hoth : forall x, x <> o -> pend (write o k s) x = pend s x) by (intros x Hx; unfold pend, write; cbn; rewrite upd_other; auto).
+  constructor.
+  - cbn. apply NoDup_filter; auto.
+  - intros x. cbn [ots write]. rewrite filter_In. destruct (Nat.eq_dec x o) as [->|Hne].
+    + rewrite Hpo, Nat.eqb_refl. cbn. split; [intros [_ H]; discriminate | intros H; exfalso; apply H; reflexivity].
+    + rewrite Hoth by auto. rewrite Hots. apply Nat.eqb_neq in Hne. rewrite Hne. cbn. tauto.
+  - intros x Hx. cbn in Hx. destruct (Nat.eq_dec x o) as [->|Hne].
+    + exfalso. unfold pend in Hp. rewrite (Hnext o Hx) in Hp. discriminate.
+    + cbn. rewrite upd_other; auto.
+  - intros x Hx. cbn. destruct (Nat.eq_dec x o) as [->|Hne]; [rewrite Hpo in Hx; exfalso; apply Hx; reflexivity|].
+    rewrite Hoth in Hx by auto. eapply Hmod; eauto.
+  - intros x. cbn. destruct (Nat.eq_dec x o) as [->|Hne].
+    + rewrite upd_same; cbn. destruct k; cbn; auto; discriminate.
+    + rewrite upd_other; auto.
+Qed.
+
+Section Repaired.
+  Variable hooks : bool -> kind -> nat -> state -> list action.
+
+  (* chain = the objects whose before hook has run and whose statement is still to come (dependent_objects + the current one) *)
+  Record IH_ (chain : list nat) (s : state) : Prop := mkIH {
+    h_wf : wf s;
+    h_pb : forall x k, phase (log s) x = PB k -> In x chain /\ pend s x = Some k;
+    h_chain : forall x, In x chain -> exists k, phase (log s) x = PB k;
+    h_all : forall x, phase (log s) x = Idle \/ (exists k, phase (log s) x = PB k) \/ (exists k, phase (log s) x = PS k /\ In (x, k) (saved s));
+    h_saved : forall x k, In (x, k) (saved s) -> phase (log s) x = PS k;
+    h_nodup : NoDup (map fst (saved s));
+    h_created : forall x, o_status (objs s x) = SCreated -> phase (log s) x = Idle \/ In x chain;
+    h_fresh : forall x, next s <= x -> phase (log s) x = Idle
+  }.
+
+  Lemma pend_lt_next : forall s x k, wf s -> pend s x = Some k -> x < next s.
+  Proof.
+    intros s x k Hwf Hp. destruct (le_lt_dec (next s) x) as [Hle|]; auto.
+    exfalso. unfold pend in Hp. rewrite (wf_next _ Hwf x Hle) in Hp. discriminate.
+  Qed.
+
+  (* the before hook of a created principal p that is not in the chain *)
+  Lemma hook_step : forall chain s p,
+    IH_ chain s -> o_status (objs s p) = SCreated -> ~ In p chain ->
+    IH_ (p :: chain) (run_hook hooks true KIns p (add_log (EB KIns p) s)).
+  Proof.
+    intros chain s p H Hst Hni.
+    assert (Hidle : phase (log s) p = Idle) by (destruct (h_created _ _ H p Hst); [auto | contradiction]).
+    assert (Hpend : pend s p = Some KIns) by (unfold pend; rewrite Hst; reflexivity).
+    set (s0 := add_log (EB KIns p) s).
+    assert (Hwf0 : wf s0) by (apply add_log_wf; apply H).
+    pose proof (run_hook_ext hooks true KIns p s0 Hwf0) as [Hl Hs _ Hpe Hwf1].
+    set (s1 := run_hook hooks true KIns p s0) in *.
+    assert (Hph : forall x, phase (log s1) x = if Nat.eqb x p then PB KIns else phase (log s) x).
+    { intros x. rewrite Hl. replace (log s0) with (log s ++ [EB KIns p]) by reflexivity. rewrite phase_snoc.
+      destruct (Nat.eqb x p) eqn:E.
+      - apply Nat.eqb_eq in E; subst. rewrite Hidle. cbn. rewrite Nat.eqb_refl. reflexivity.
+      - apply Nat.eqb_neq in E. rewrite step_other by auto. reflexivity. }
+    assert (Hnext : next s <= next s1) by (unfold s1, run_hook; clear; generalize (hooks true KIns p s0); intros l;
+      change (next s) with (next s0); generalize s0; induction l as [|a l IHl]; intros t; cbn; [lia | pose proof (apply_action_next t a); specialize (IHl (apply_action t a)); lia]).
+    constructor.
+    - exact Hwf1.
+    - intros x k Hx. rewrite Hph in Hx. destruct (Nat.eqb x p) eqn:E.
+      + apply Nat.eqb_eq in E; subst. inversion Hx; subst. split; [left; auto | apply Hpe; exact Hpend].
+      + destruct (h_pb _ _ H x k Hx) as [A B]. split; [right; auto | apply Hpe; exact B].
+    - intros x [<-|Hx]; rewrite Hph; [rewrite Nat.eqb_refl; eauto|].
+      destruct (Nat.eqb x p) eqn:E; [eauto | apply (h_chain _ _ H); auto].
+    - intros x. rewrite Hph, Hs. destruct (Nat.eqb x p); [right; left; eauto | apply (h_all _ _ H)].
+    - intros x k Hx. rewrite Hs in Hx. rewrite Hph. destruct (Nat.eqb x p) eqn:E; [|apply (h_saved _ _ H); auto].
+      apply Nat.eqb_eq in E; subst. pose proof (h_saved _ _ H _ _ Hx) as Hc. rewrite Hidle in Hc. discriminate.
+    - rewrite Hs. apply H.
+    - intros x Hx. rewrite Hph. destruct (Nat.eqb x p) eqn:E; [right; left; apply Nat.eqb_eq in E; auto|].
+      unfold s1, run_hook in Hx. apply actions_created in Hx. destruct Hx as [Hx|Hx].
+      + destruct (h_created _ _ H x Hx); [left; auto | right; right; auto].
+      + left. apply (h_fresh _ _ H). exact Hx.
+    - intros x Hx. rewrite Hph. destruct (Nat.eqb x p) eqn:E.
+      + apply Nat.eqb_eq in E; subst. pose proof (pend_lt_next _ _ _ Hwf1 (Hpe _ _ Hpend)). lia.
+      + apply (h_fresh _ _ H). lia.
+  Qed.
+
+  (* the statement of the head of the chain *)
+  Lemma write_step : forall chain s o k,
+    IH_ (o :: chain) s -> ~ In o chain -> pend s o = Some k -> IH_ chain (write o k s) /\ pend (write o k s) o = None.
+  Proof.
+    intros chain s o k H Hni Hp.
+    assert (Hpb : phase (log s) o = PB k).
+    { destruct (h_chain _ _ H o (or_introl eq_refl)) as [k' Hk']. destruct (h_pb _ _ H o k' Hk') as [_ Hp']. congruence. }
+    assert (Hpo : pend (write o k s) o = None) by (unfold pend, write; cbn; rewrite upd_same; cbn; destruct k; reflexivity).
+    assert (Hoth : forall x, x <> o -> pend (write o k s) x = pend s x) by (intros x Hx; unfold pend, write; cbn; rewrite upd_other; auto).
+    assert (Hph : forall x, phase (log (write o k s)) x = if Nat.eqb x o then PS k else phase (log s) x).
+    { intros x. cbn [log write]. rewrite phase_snoc. destruct (Nat.eqb x o) eqn:E.
+      - apply Nat.eqb_eq in E; subst. rewrite Hpb. cbn. rewrite Nat.eqb_refl, kind_eqb_refl. reflexivity.
+      - apply Nat.eqb_neq in E. rewrite step_other by auto. reflexivity. }
+    split; [|exact Hpo]. constructor.
+    - apply write_wf; [apply H | exact Hp].
+    - intros x k' Hx. rewrite Hph in Hx. destruct (Nat.eqb x o) eqn:E; [discriminate|]. apply Nat.eqb_neq in E.
+      destruct (h_pb _ _ H x k' Hx) as [[A|A] B]; [congruence|]. split; auto. rewrite Hoth; auto.
+    - intros x Hx. rewrite Hph. destruct (Nat.eqb x o) eqn:E; [apply Nat.eqb_eq in E; subst; contradiction|].
+      apply (h_chain _ _ H). right; auto.
+    - intros x. rewrite Hph. cbn [saved write]. destruct (Nat.eqb x o) eqn:E.
+      + apply Nat.eqb_eq in E; subst. right; right. exists k. split; auto. apply in_or_app; right; left; auto.
+      + destruct (h_all _ _ H x) as [A|[A|[k' [A B]]]]; auto. right; right. exists k'. split; auto. apply in_or_app; left; auto.
+    - intros x k' Hx. cbn [saved write] in Hx. rewrite Hph. apply in_app_or in Hx. destruct Hx as [Hx|[Hx|[]]].
+      + pose proof (h_saved _ _ H _ _ Hx) as Hc. destruct (Nat.eqb x o) eqn:E; auto.
+        apply Nat.eqb_eq in E; subst. rewrite Hpb in Hc. discriminate.
+      + inversion Hx; subst. rewrite Nat.eqb_refl. reflexivity.
+    - cbn [saved write]. rewrite map_app. cbn. apply nodup_snoc_gen; [apply H|].
+      intros Hin. apply in_map_iff in Hin. destruct Hin as [[x k'] [Hx1 Hx2]]. cbn in Hx1; subst x.
+      pose proof (h_saved _ _ H _ _ Hx2) as Hc. rewrite Hpb in Hc. discriminate.
+    - intros x Hx. rewrite Hph. destruct (Nat.eqb x o) eqn:E.
+      + apply Nat.eqb_eq in E; subst. cbn in Hx. rewrite upd_same in Hx. cbn in Hx. destruct k; discriminate.
+      + apply Nat.eqb_neq in E. cbn in Hx. rewrite upd_other in Hx by auto.
+        destruct (h_created _ _ H x Hx) as [A|[A|A]]; [left; auto | congruence | right; auto].
+    - intros x Hx. rewrite Hph. destruct (Nat.eqb x o) eqn:E; [|apply (h_fresh _ _ H); exact Hx].
+      apply Nat.eqb_eq in E; subst. cbn in Hx. pose proof (pend_lt_next _ _ _ (h_wf _ _ H) Hp). lia.
+  Qed.
+
+  Definition princ_step_h (f : nat) (deps : list nat) (acc : option state) (p : nat) : option state :=
+    match acc with
+    | None => None
+    | Some s' => match o_status (objs s' p) with
+                 | SCreated => save_obj_h hooks f deps p (run_hook hooks true KIns p (add_log (EB KIns p) s'))
+                 | _ => Some s'
+                 end
+    end.
+
+  Lemma save_obj_h_unfold : forall f deps o s,
+    save_obj_h hooks (S f) deps o s =
+    match pending_kind (o_status (objs s o)) with
+    | None => Some s
+    | Some k =>
+        if existsb (Nat.eqb o) deps then None
+        else match fold_left (princ_step_h f (o :: deps)) (match k with KDel => [] | _ => o_princ (objs s o) end) (Some s) with
+             | None => None
+             | Some s1 => match pending_kind (o_status (objs s1 o)) with
+                          | Some k' => Some (write o k' s1)
+                          | None => Some s1
+                          end
+             end
+    end.
+  Proof. reflexivity. Qed.
+
+  Lemma existsb_false_not_In : forall o l, existsb (Nat.eqb o) l = false -> ~ In o l.
+  Proof.
+    intros o l H Hin. assert (existsb (Nat.eqb o) l = true) by (apply existsb_exists; exists o; split; auto; apply Nat.eqb_refl). congruence.
+  Qed.
+
+  Lemma save_obj_h_inv : forall fuel deps o s s',
+    IH_ (o :: deps) s -> save_obj_h hooks fuel deps o s = Some s' -> IH_ deps s'.
+  Proof.
+    induction fuel as [|f IHf]; intros deps o s s' H Hrun; [discriminate|].
+    rewrite save_obj_h_unfold in Hrun.
+    destruct (h_chain _ _ H o (or_introl eq_refl)) as [k0 Hk0]. destruct (h_pb _ _ H o k0 Hk0) as [_ Hp0].
+    unfold pend in Hp0. rewrite Hp0 in Hrun.
+    destruct (existsb (Nat.eqb o) deps) eqn:Edeps; [discriminate|]. apply existsb_false_not_In in Edeps.
+    assert (Hfold : forall ps s0 s1, IH_ (o :: deps) s0 -> fold_left (princ_step_h f (o :: deps)) ps (Some s0) = Some s1 -> IH_ (o :: deps) s1).
+    { induction ps as [|p ps IHps]; intros s0 s1 H0 Hf; cbn in Hf; [inversion Hf; subst; auto|].
+      destruct (o_status (objs s0 p)) eqn:Hst; try (apply IHps in Hf; auto; fail).
+      destruct (save_obj_h hooks f (o :: deps) p (run_hook hooks true KIns p (add_log (EB KIns p) s0))) as [s0'|] eqn:Hsv.
+      - apply (IHps _ _) in Hf; auto.
+        destruct (in_dec Nat.eq_dec p (o :: deps)) as [Hin|Hnin].
+        + (* p is already in the chain: the recursive call stops with the cyclic-dependency error *)
+          exfalso. destruct f as [|f']; [discriminate|]. rewrite save_obj_h_unfold in Hsv.
+          assert (Hpp : pending_kind (o_status (objs (run_hook hooks true KIns p (add_log (EB KIns p) s0)) p)) = Some KIns).
+          { assert (Hwf0 : wf (add_log (EB KIns p) s0)) by (apply add_log_wf; apply H0).
+            pose proof (run_hook_ext hooks true KIns p _ Hwf0) as [_ _ _ Hpe _].
+            apply (Hpe p KIns). unfold pend. cbn. rewrite Hst. reflexivity. }
+          rewrite Hpp in Hsv.
+          assert (existsb (Nat.eqb p) (o :: deps) = true) by (apply existsb_exists; exists p; split; auto; apply Nat.eqb_refl).
+          rewrite H1 in Hsv. discriminate.
+        + eapply IHf; [|exact Hsv]. apply hook_step; auto.
+      - rewrite fold_none in Hf; [discriminate | reflexivity]. }
+    destruct (fold_left (princ_step_h f (o :: deps)) _ (Some s)) as [s1|] eqn:Hf; [|discriminate].
+    pose proof (Hfold _ _ _ H Hf) as H1.
+    destruct (h_chain _ _ H1 o (or_introl eq_refl)) as [k1 Hk1]. destruct (h_pb _ _ H1 o k1 Hk1) as [_ Hp1].
+    unfold pend in Hp1. rewrite Hp1 in Hrun. inversion Hrun; subst.
+    apply (write_step deps s1 o k1 H1 Edeps Hp1).
+  Qed.
+
+  Lemma after_loop_R2 : forall s,
+    wf s ->
+    (forall o, phase (log s) o = Idle \/ exists k, phase (log s) o = PS k /\ In (o, k) (saved s)) ->
+    (forall o k, In (o, k) (saved s) -> phase (log s) o = PS k) ->
+    NoDup (map fst (saved s)) ->
+    R (after_loop hooks s).
+  Proof.
+    intros s Hwf Hb Hc Hd. unfold after_loop.
+    set (s0 := mkst (objs s) (next s) (ots s) [] (modified s) (log s)).
+    assert (HP3 : P3 (saved s) s0).
+    { split; [destruct Hwf; constructor; auto|]. split; [reflexivity|]. split; [exact Hc|]. split; [exact Hd|].
+      intros o Ho. destruct (Hb o) as [H|[k [H1 H2]]]; auto. exfalso. apply Ho. apply in_map_iff. exists (o, k); auto. }
+    destruct (after_fold hooks _ _ HP3) as (Hwf' & Hsv' & _ & _ & Hidle).
+    split; [exact Hwf'|]. split; [exact Hsv'|]. intros o. apply Hidle. intros [].
+  Qed.
+
+  (* C33_obj_flush_once for the repaired code: unconditional *)
+  Lemma obj_flush_h_once : forall fuel o s s', R s -> obj_flush_h hooks fuel o s = Some s' -> R s'.
+  Proof.
+    intros fuel o s s' HR Hf. unfold obj_flush_h in Hf.
+    destruct (pending_kind (o_status (objs s o))) as [k|] eqn:Hp; [|inversion Hf; subst; auto].
+    destruct HR as (Hwf & Hsv & Hidle).
+    set (s0 := add_log (EB k o) s) in *. set (s1 := run_hook hooks true k o s0) in *.
+    assert (Hwf0 : wf s0) by (apply add_log_wf; auto).
+    pose proof (run_hook_ext hooks true k o s0 Hwf0) as [Hl Hs _ Hpe Hwf1]. fold s1 in Hl, Hs, Hpe, Hwf1.
+    assert (Hph : forall x, phase (log s1) x = if Nat.eqb x o then PB k else Idle).
+    { intros x. rewrite Hl. replace (log s0) with (log s ++ [EB k o]) by reflexivity. rewrite phase_snoc. destruct (Nat.eqb x o) eqn:E.
+      - apply Nat.eqb_eq in E; subst. rewrite Hidle. cbn. rewrite Nat.eqb_refl. reflexivity.
+      - apply Nat.eqb_neq in E. rewrite step_other by auto. apply Hidle. }
+    assert (Hp1 : pend s1 o = Some k) by (apply Hpe; exact Hp).
+    assert (H1 : IH_ [o] s1).
+    { constructor.
+      - exact Hwf1.
+      - intros x k' Hx. rewrite Hph in Hx. destruct (Nat.eqb x o) eqn:E; [|discriminate].
+        apply Nat.eqb_eq in E; subst. inversion Hx; subst. split; [left; auto | exact Hp1].
+      - intros x [<-|[]]. rewrite Hph, Nat.eqb_refl. eauto.
+      - intros x. rewrite Hph. destruct (Nat.eqb x o); [right; left; eauto | left; auto].
+      - rewrite Hs. cbn. rewrite Hsv. intros x k' [].
+      - rewrite Hs. cbn. rewrite Hsv. constructor.
+      - intros x _. rewrite Hph. destruct (Nat.eqb x o) eqn:E; [right; left; apply Nat.eqb_eq in E; auto | left; auto].
+      - intros x Hx. rewrite Hph. destruct (Nat.eqb x o) eqn:E; auto.
+        apply Nat.eqb_eq in E; subst. pose proof (pend_lt_next _ _ _ Hwf1 Hp1). lia. }
+    destruct (save_obj_h hooks fuel [] o s1) as [s2|] eqn:Hsv2; [|discriminate]. inversion Hf; subst; clear Hf.
+    pose proof (save_obj_h_inv _ _ _ _ _ H1 Hsv2) as H2.
+    apply after_loop_R2.
+    - apply H2.
+    - intros x. destruct (h_all _ _ H2 x) as [A|[[k' A]|A]]; auto.
+      destruct (h_pb _ _ H2 x k' A) as [[] _].
+    - apply (h_saved _ _ H2).
+    - apply (h_nodup _ _ H2).
+  Qed.
+End Repaired.
+
 (* ------------------------------------------------------------------ the recorded defect, as a model witness *)
 Definition no_hooks : bool -> kind -> nat -> state -> list action := fun _ _ _ _ => [].
 Definition st_principal : state :=
